@@ -67,6 +67,7 @@ def cases(tier, seed):
                     if tier == "quick" and lead == 3 and (d == 3 or si > 1):
                         continue
                     out.append({"kind": "layout", "d": d, "sig": si, "order": [list(k) for k in order], "lead": lead, "depth": depth, "cost": 1 + lead * 2})
+    out.append({"kind": "history", "cost": 5})
     models = ["ConvContract", "ConvBlock", "UNet", "ResNet", "DilResNet", "GroupAverage"]
     for m in models:
         for eq in (True, False):
@@ -364,7 +365,46 @@ def _saveload(case):
     return {"violations": v, "nt": bool(differs), "evals": 1, "states": 2, "transitions": 2, "traces": 1, "outcome": f"saveload/{case['model']}/eq={eq}"}
 
 
+def _history(case):
+    """the same signature re-laid-out at different D (and leading-axis counts) within ONE process, in both orders:
+    module-level tables keyed by the signature alone would go stale"""
+    import jax.numpy as jnp
+    import ginjax.geometric as geom
+
+    v = []
+    n = 0
+    sigs = [[((1, 0), 2), ((0, 0), 1)], [((0, 0), 2), ((1, 1), 1), ((2, 0), 1)], [((1, 0), 1), ((1, 1), 3)]]
+    for sig in sigs:
+        for seq in ((2, 3, 2), (3, 2, 3)):
+            for D in seq:
+                for lead in (1, 2):
+                    sp = EXT[D]
+                    blocks = {}
+                    off = 1
+                    for kp, c in sig:
+                        shape = ((4,) if lead == 2 else ()) + (c,) + sp + (D,) * kp[0]
+                        blocks[kp] = (np.arange(int(np.prod(shape)), dtype=np.float32) + off).reshape(shape)
+                        off += 500
+                    m = geom.MultiImage({kp: jnp.asarray(b) for kp, b in blocks.items()}, D, True)
+                    back = m.to_scalar_multi_image().from_scalar_multi_image(m.get_signature())
+                    vec = geom.MultiImage.from_vector(m.to_vector(), m)
+                    n += 2
+                    for name, r in (("scalar", back), ("vector", vec)):
+                        if set(r.keys()) != set(blocks) or any(np.asarray(r[kp]).shape != blocks[kp].shape or not np.array_equal(np.asarray(r[kp]), blocks[kp]) for kp in blocks):
+                            v.append(viol(f"C13/history/{name}", f"{name} round trip of signature {sig} at D={D} fails after the same signature was used at the other D in this process (sequence {seq})", case=case))
+                            break
+                if v:
+                    break
+            if v:
+                break
+        if v:
+            break
+    return {"violations": v[:3], "nt": True, "evals": n, "states": n, "transitions": 2 * n, "traces": n, "outcome": "history"}
+
+
 def run_case(case, seed):
+    if case["kind"] == "history":
+        return _history(case)
     return _layout(case) if case["kind"] == "layout" else _saveload(case)
 
 
